@@ -305,18 +305,33 @@ def r5(ctx, R):
         raise AnalysisError("FortranFile.parse: no split on ';'")
     for c in splits:
         X = c.func.value.id
-        vals = [v for v in reaching_defs(ctx, p, c, X) if isinstance(v, ast.AST)]
+        # the family of X: the locals X is a plain copy or a prefix slice of (the blanked text may be
+        # built under another name, e.g. by an inlined helper, and copied into X)
+        family = {X}
+        fam_defs = []  # (stmt, target name, value)
+        for _ in range(5):
+            for st in ctx.m.walk_own(p.node):
+                if isinstance(st, ast.Assign) and len(st.targets) == 1 and isinstance(st.targets[0], ast.Name) and st.targets[0].id in family and st.lineno <= c.lineno:
+                    v = st.value
+                    base = v.value if isinstance(v, ast.Subscript) and isinstance(v.slice, ast.Slice) else v
+                    if isinstance(base, ast.Name):
+                        family.add(base.id)
+        for st in ctx.m.walk_own(p.node):
+            if isinstance(st, ast.Assign) and len(st.targets) == 1 and isinstance(st.targets[0], ast.Name) and st.targets[0].id in family and st.lineno <= c.lineno:
+                fam_defs.append((st, st.targets[0].id, st.value))
+        vals = [v for _, _, v in fam_defs]
         blanked = [v for v in vals if isinstance(v, ast.Call) and any(q.endswith("strip_strings") for q in ctx.r.resolve_call(p, v)[1])]
         okb = bool(blanked) and all(any(kw.arg == "maintain_len" and isinstance(kw.value, ast.Constant) and kw.value.value is True for kw in v.keywords) or (len(v.args) > 1 and isinstance(v.args[1], ast.Constant) and v.args[1].value is True) for v in blanked)
         rest = [v for v in vals if v not in blanked]
-        if okb and all(isinstance(v, ast.Subscript) and isinstance(v.slice, ast.Slice) and unparse(v.value) == X for v in rest):
+        derived = lambda v: (isinstance(v, ast.Name) and v.id in family) or (isinstance(v, ast.Subscript) and isinstance(v.slice, ast.Slice) and isinstance(v.value, ast.Name) and v.value.id in family)
+        if okb and all(derived(v) for v in rest):
             R.ok("C13.R5", p.short, f"`{X}` is the literal-blanked line", loc(p, c))
         else:
             R.violation("C13.R5", p.short, f"`{X}` is the literal-blanked line", loc(p, c), f"the text split on `;` is not (only) the copy with character literals blanked at the same length: a `;` inside a string splits the statement")
-        # comment cut: C = X.find("!"); if C >= 0: X = X[:C]
+        # comment cut: C = <family>.find("!"); on the found path <family> = <family>[:C]
         cvar = None
         for st in ctx.m.walk_own(p.node):
-            if isinstance(st, ast.Assign) and isinstance(st.targets[0], ast.Name) and isinstance(st.value, ast.Call) and isinstance(st.value.func, ast.Attribute) and st.value.func.attr in ("find", "index") and unparse(st.value.func.value) == X and st.value.args and isinstance(st.value.args[0], ast.Constant) and st.value.args[0].value == "!" and st.lineno < c.lineno:
+            if isinstance(st, ast.Assign) and isinstance(st.targets[0], ast.Name) and isinstance(st.value, ast.Call) and isinstance(st.value.func, ast.Attribute) and st.value.func.attr in ("find", "index") and isinstance(st.value.func.value, ast.Name) and st.value.func.value.id in family and st.value.args and isinstance(st.value.args[0], ast.Constant) and st.value.args[0].value == "!" and st.lineno < c.lineno:
                 cvar = st.targets[0].id
         cut = False
         if cvar:
@@ -332,7 +347,8 @@ def r5(ctx, R):
                     else:
                         pairs.append((t, st.value))
                 for t, v in pairs:
-                    if unparse(t) == X and isinstance(v, ast.Subscript) and isinstance(v.slice, ast.Slice) and v.slice.lower is None and v.slice.upper is not None and unparse(v.slice.upper) == cvar and unparse(v.value) == X and cfg.node_of(st) is not None:
+                    # the value that reaches the split (X) is assigned a prefix cut at the comment start
+                    if unparse(t) == X and isinstance(v, ast.Subscript) and isinstance(v.slice, ast.Slice) and v.slice.lower is None and v.slice.upper is not None and unparse(v.slice.upper) == cvar and isinstance(v.value, ast.Name) and v.value.id in family and cfg.node_of(st) is not None:
                         cuts.add(cfg.node_of(st).id)
             tests = [st for st in ctx.m.walk_own(p.node) if isinstance(st, ast.If) and unparse(st.test) in (f"{cvar} >= 0", f"{cvar} > -1", f"{cvar} != -1", f"{cvar} < 0", f"{cvar} == -1") and st.lineno < c.lineno]
             target = cfg.node_of(c)
